@@ -227,6 +227,10 @@ func Tier() int {
 	return 0
 }
 
+// ConcreteClock makes the engine's clock concrete: every time.Now() advances by step nanoseconds
+// (0 = back to an arbitrary non-decreasing clock). Natively the real clock is used.
+func ConcreteClock(step int64) {}
+
 // NCSPosts returns the receipts posted to the (stubbed) credit service. Engine only: natively the harness
 // owns a recording HTTP endpoint instead.
 func NCSPosts() []ncsclient.ReceiptPayload { panic("verifnd.NCSPosts is engine-only") }
